@@ -90,6 +90,11 @@ pub fn judge(x: &Vec<u8>, st: &mut Stats) -> Verdict {
         "raw-after-withdrawn-length",
         guard(|| Builder::new(x[12], x[13]).set_length(7u16).set_length(None).write_payload(h.address_bytes())?.set_length(9u16).set_length(None).write_payload(h.tlv_bytes())?.build()),
     )?;
+    // ... and one that is withdrawn only after the first write (for a header without payload both writes are empty)
+    check(
+        "raw-length-withdrawn-after-first-write",
+        guard(|| Builder::new(x[12], x[13]).set_length(232u16).write_payload(h.address_bytes())?.set_length(None).write_payload(h.tlv_bytes())?.build()),
+    )?;
     check(
         "raw-tlvs-unless-empty",
         guard(|| {
@@ -261,6 +266,21 @@ pub fn judge(x: &Vec<u8>, st: &mut Stats) -> Verdict {
                 let sh = ppp::v2::Header::try_from(&sib[..]).map_err(|_| std::io::Error::from(std::io::ErrorKind::InvalidData))?;
                 Builder::with_addresses(sib[12], sh.protocol, sh.addresses).write_payload(sh.tlv_bytes())?.build()
             });
+        }
+    }
+    // e1. IPv4 headers: the IPv6 twin (the same endpoints as IPv4-mapped addresses, same ports) is rebuilt first, and the other
+    //     way round for IPv6 headers whose two addresses are IPv4-mapped
+    {
+        let twin: Option<ppp::v2::Addresses> = match h.addresses {
+            ppp::v2::Addresses::IPv4(a) => Some(ppp::v2::IPv6::new(a.source_address.to_ipv6_mapped(), a.destination_address.to_ipv6_mapped(), a.source_port, a.destination_port).into()),
+            ppp::v2::Addresses::IPv6(a) => match (a.source_address.to_ipv4_mapped(), a.destination_address.to_ipv4_mapped()) {
+                (Some(s4), Some(d4)) => Some(ppp::v2::IPv4::new(s4, d4, a.source_port, a.destination_port).into()),
+                _ => None,
+            },
+            _ => None,
+        };
+        if let Some(tw) = twin {
+            let _ = guard(|| Builder::with_addresses(x[12], h.protocol, tw).build());
         }
     }
     // e. from the decoded address value
